@@ -70,3 +70,13 @@ claim("C03", "reference-model monitor (same engine pair as C02): join kinds x co
       "Seeded join pipelines covering all kinds, condition forms, left prefixes, right-hand pipelines with nested joins and join sequences are compiled by the real compiler and executed by the independent engine; the result must be the reference join of the interpreter's left result with the independently interpreted right pipeline, followed by the suffix operators.",
       "As C02; columns present on both sides are never referenced after the join.",
       "DESIGN.md section 5, C03")
+
+claim("C14", "Go race detector over many short fresh-process histories (barrier-released first calls, build-tagged pause hook in the lazy initialisation) + offline history check against first-and-only-call reference outputs from fresh single-goroutine processes",
+      "Each child process (race build) releases 2-64 goroutines at once so that their first Compile calls overlap in the lazy function-table initialisation (held open by the pause hook in half of the children), then runs a seeded mix of Compile/Parse/Scan with one shared CompileOptions; zero race reports are required, every recorded output must equal the output of the same call made alone in a fresh process, and the shared parameter map must be unchanged. Held = no report and no divergence on the schedules produced; schedules are not enumerated.",
+      "Trusts the Go race detector (happens-before races on executed accesses only) and sha256 equality of printed results; the harness adds no synchronisation between calls.",
+      "DESIGN.md section 5, C14")
+
+claim("C16", "process-level monitor: the real cmd/pql binary run on generated scripts under five delivery modes and injected read faults (long line, directory, missing file, strace EIO), compared with a per-statement model computed from the generator's statement list",
+      "The binary built from the working tree is executed as a child process (always under a SIGKILL timeout) on seeded scripts of let/query/invalid statements in varied layouts, delivered via stdin, one file, several files cut at arbitrary bytes, '-' among files and -o; stdout must equal the concatenation of the library's SQL for each query with the accepted lets in scope, the exit status must be non-zero exactly when a statement failed or input could not be read, and stderr must carry a line per failure. Read faults are injected with strace and by file-system means.",
+      "Trusts the statement list of the generator (not a re-split of the text), the library's Compile for per-statement SQL, and strace's log for whether an injection fired.",
+      "DESIGN.md section 5, C16")
